@@ -15,6 +15,12 @@
 (*   cancel_begin c / cancel_end c   cancel(...) is about to be called /   *)
 (*               has returned (c = item of the mapper, 0 = the reducer)    *)
 (*   ctx_done    the context is about to be cancelled                      *)
+(*   cancel_recorded c / ctx_recorded   (directed scenarios only) the      *)
+(*               driver has positively observed that cancel c / the        *)
+(*               caller's handling of the done context has recorded its    *)
+(*               error inside the call (the goroutine sits in cancel's     *)
+(*               drain of the source, which follows the recording); the    *)
+(*               reducer is released to write only after this event        *)
 (*   ret         the call has returned / re-raised: kind, val              *)
 (*   end         everything of the call has come to rest                   *)
 (* The acceptor is deterministic (no internal steps): one action per       *)
@@ -27,7 +33,10 @@
 (* the mapper at any point of the history; "the first cancel wins": the    *)
 (* cancel whose error is returned must have begun before any other cancel  *)
 (* had returned; DeadlineExceeded only after the context was cancelled; a  *)
-(* value only after the reducer began to write it; a reducer that read the *)
+(* value only after the reducer began to write it; a value is NOT the      *)
+(* result when a cancel / the context was recorded before the reducer      *)
+(* began its first write (then: that cancel's error / DeadlineExceeded, or *)
+(* a re-raised panic); a reducer that read the                             *)
 (* pipe to its end implies every item mapped and every value delivered     *)
 (* before the call returns.                                                *)
 (***************************************************************************)
@@ -39,9 +48,11 @@ VARIABLES l,        \* index of the next event
           sc,       \* obligations of the current execution (from its reset event)
           gen, begun, ended, running, writ, recvd,
           cb, ce, before,   \* cancels begun / ended; before[c] = cancels that had ended when c began
-          ctxd, rwb, returned
+          ctxd, rwb, returned,
+          rec, ctxrec,      \* cancellers / context observed recorded so far
+          recW, ctxrecW     \* ... as of the moment the reducer began its first write
 
-vars == <<l, sc, gen, begun, ended, running, writ, recvd, cb, ce, before, ctxd, rwb, returned>>
+vars == <<l, sc, gen, begun, ended, running, writ, recvd, cb, ce, before, ctxd, rwb, returned, rec, ctxrec, recW, ctxrecW>>
 
 Ev == TraceLog[l]
 Is(name) == l <= Len(TraceLog) /\ TraceLog[l].e = name
@@ -56,6 +67,7 @@ Init ==
   /\ gen = {} /\ begun = {} /\ ended = {} /\ running = 0 /\ writ = {} /\ recvd = {}
   /\ cb = {} /\ ce = {} /\ before = [c \in Cancellers |-> {}]
   /\ ctxd = FALSE /\ rwb = 0 /\ returned = FALSE
+  /\ rec = {} /\ ctxrec = FALSE /\ recW = {} /\ ctxrecW = FALSE
   /\ TLCSet(1, 1)
 
 Reset ==
@@ -66,12 +78,13 @@ Reset ==
   /\ begun' = {} /\ ended' = {} /\ running' = 0 /\ writ' = {} /\ recvd' = {}
   /\ cb' = {} /\ ce' = {} /\ before' = [c \in Cancellers |-> {}]
   /\ ctxd' = FALSE /\ rwb' = 0 /\ returned' = FALSE
+  /\ rec' = {} /\ ctxrec' = FALSE /\ recW' = {} /\ ctxrecW' = FALSE
   /\ Consume
 
 GenSend ==
   /\ Is("gen_send") /\ Ev.i \notin gen /\ Ev.i \in 1..sc.n
   /\ gen' = gen \cup {Ev.i}
-  /\ UNCHANGED <<sc, begun, ended, running, writ, recvd, cb, ce, before, ctxd, rwb, returned>> /\ Consume
+  /\ UNCHANGED <<sc, begun, ended, running, writ, recvd, cb, ce, before, ctxd, rwb, returned, rec, ctxrec, recW, ctxrecW>> /\ Consume
 
 MapBegin ==
   /\ Is("map_begin")
@@ -79,42 +92,53 @@ MapBegin ==
   /\ Ev.i \notin begun                 \* at most once
   /\ sc.mapAll => running + 1 <= sc.workers
   /\ begun' = begun \cup {Ev.i} /\ running' = running + 1
-  /\ UNCHANGED <<sc, gen, ended, writ, recvd, cb, ce, before, ctxd, rwb, returned>> /\ Consume
+  /\ UNCHANGED <<sc, gen, ended, writ, recvd, cb, ce, before, ctxd, rwb, returned, rec, ctxrec, recW, ctxrecW>> /\ Consume
 
 MapEnd ==
   /\ Is("map_end") /\ Ev.i \in begun \ ended
   /\ ended' = ended \cup {Ev.i} /\ running' = running - 1
-  /\ UNCHANGED <<sc, gen, begun, writ, recvd, cb, ce, before, ctxd, rwb, returned>> /\ Consume
+  /\ UNCHANGED <<sc, gen, begun, writ, recvd, cb, ce, before, ctxd, rwb, returned, rec, ctxrec, recW, ctxrecW>> /\ Consume
 
 MapWrite ==
   /\ Is("map_write") /\ Ev.v \notin writ /\ (Ev.v \div 10) \in begun \ ended
   /\ writ' = writ \cup {Ev.v}
-  /\ UNCHANGED <<sc, gen, begun, ended, running, recvd, cb, ce, before, ctxd, rwb, returned>> /\ Consume
+  /\ UNCHANGED <<sc, gen, begun, ended, running, recvd, cb, ce, before, ctxd, rwb, returned, rec, ctxrec, recW, ctxrecW>> /\ Consume
 
 RedRecv ==
   /\ Is("red_recv")
   /\ Ev.v \in writ                     \* nothing out of thin air
   /\ Ev.v \notin recvd                 \* at most once
   /\ recvd' = recvd \cup {Ev.v}
-  /\ UNCHANGED <<sc, gen, begun, ended, running, writ, cb, ce, before, ctxd, rwb, returned>> /\ Consume
+  /\ UNCHANGED <<sc, gen, begun, ended, running, writ, cb, ce, before, ctxd, rwb, returned, rec, ctxrec, recW, ctxrecW>> /\ Consume
 
 RedWrite ==
   /\ Is("red_write") /\ Ev.k = rwb + 1 /\ rwb' = rwb + 1
-  /\ UNCHANGED <<sc, gen, begun, ended, running, writ, recvd, cb, ce, before, ctxd, returned>> /\ Consume
+  /\ recW' = (IF rwb = 0 THEN rec ELSE recW) /\ ctxrecW' = (IF rwb = 0 THEN ctxrec ELSE ctxrecW)
+  /\ UNCHANGED <<sc, gen, begun, ended, running, writ, recvd, cb, ce, before, ctxd, returned, rec, ctxrec>> /\ Consume
+
+CancelRecorded ==
+  /\ Is("cancel_recorded") /\ Ev.c \in cb \ ce       \* observed inside a cancel that has begun and not returned
+  /\ rec' = rec \cup {Ev.c}
+  /\ UNCHANGED <<sc, gen, begun, ended, running, writ, recvd, cb, ce, before, ctxd, rwb, returned, ctxrec, recW, ctxrecW>> /\ Consume
+
+CtxRecorded ==
+  /\ Is("ctx_recorded") /\ ctxd
+  /\ ctxrec' = TRUE
+  /\ UNCHANGED <<sc, gen, begun, ended, running, writ, recvd, cb, ce, before, ctxd, rwb, returned, rec, recW, ctxrecW>> /\ Consume
 
 CancelBegin ==
   /\ Is("cancel_begin") /\ Ev.c \notin cb
   /\ cb' = cb \cup {Ev.c} /\ before' = [before EXCEPT ![Ev.c] = ce]
-  /\ UNCHANGED <<sc, gen, begun, ended, running, writ, recvd, ce, ctxd, rwb, returned>> /\ Consume
+  /\ UNCHANGED <<sc, gen, begun, ended, running, writ, recvd, ce, ctxd, rwb, returned, rec, ctxrec, recW, ctxrecW>> /\ Consume
 
 CancelEnd ==
   /\ Is("cancel_end") /\ Ev.c \in cb \ ce
   /\ ce' = ce \cup {Ev.c}
-  /\ UNCHANGED <<sc, gen, begun, ended, running, writ, recvd, cb, before, ctxd, rwb, returned>> /\ Consume
+  /\ UNCHANGED <<sc, gen, begun, ended, running, writ, recvd, cb, before, ctxd, rwb, returned, rec, ctxrec, recW, ctxrecW>> /\ Consume
 
 CtxDone ==
   /\ Is("ctx_done") /\ ctxd' = TRUE
-  /\ UNCHANGED <<sc, gen, begun, ended, running, writ, recvd, cb, ce, before, rwb, returned>> /\ Consume
+  /\ UNCHANGED <<sc, gen, begun, ended, running, writ, recvd, cb, ce, before, rwb, returned, rec, ctxrec, recW, ctxrecW>> /\ Consume
 
 \* cancels whose error is `v`: sc.cerr[c+1] is the error name of canceller c (c = 0 the reducer)
 Owners(v) == {c \in 0..sc.n : sc.cerr[c + 1] = v}
@@ -127,17 +151,21 @@ Ret ==
   /\ (Ev.kind = "err" /\ IsCancelErr(Ev.val)) => \E c \in Owners(Ev.val) : c \in cb /\ before[c] = {}
   /\ (Ev.kind = "err" /\ Ev.val = "DEADLINE") => ctxd
   /\ (Ev.kind = "ret" /\ Ev.val = "R1") => rwb >= 1
+  \* a cancel / the context recorded before the reducer began to write: the write is not the result
+  /\ recW # {} => /\ Ev.kind \in {"err", "panic"}
+                  /\ Ev.kind = "err" => Ev.val \in {sc.cerr[c + 1] : c \in recW} \cup (IF ctxd THEN {"DEADLINE"} ELSE {})
+  /\ ctxrecW => (Ev.kind = "panic" \/ (Ev.kind = "err" /\ Ev.val = "DEADLINE"))
   /\ sc.deliverAll => (begun = 1..sc.n /\ ended = begun /\ recvd = sc.written)
   /\ returned' = TRUE
-  /\ UNCHANGED <<sc, gen, begun, ended, running, writ, recvd, cb, ce, before, ctxd, rwb>> /\ Consume
+  /\ UNCHANGED <<sc, gen, begun, ended, running, writ, recvd, cb, ce, before, ctxd, rwb, rec, ctxrec, recW, ctxrecW>> /\ Consume
 
 End ==
   /\ Is("end") /\ returned /\ running = 0
   /\ sc.mapAll => (begun = 1..sc.n /\ ended = begun)
   /\ sc.deliverAll => recvd = sc.written
-  /\ UNCHANGED <<sc, gen, begun, ended, running, writ, recvd, cb, ce, before, ctxd, rwb, returned>> /\ Consume
+  /\ UNCHANGED <<sc, gen, begun, ended, running, writ, recvd, cb, ce, before, ctxd, rwb, returned, rec, ctxrec, recW, ctxrecW>> /\ Consume
 
-Next == Reset \/ GenSend \/ MapBegin \/ MapEnd \/ MapWrite \/ RedRecv \/ RedWrite \/ CancelBegin \/ CancelEnd
+Next == Reset \/ CancelRecorded \/ CtxRecorded \/ GenSend \/ MapBegin \/ MapEnd \/ MapWrite \/ RedRecv \/ RedWrite \/ CancelBegin \/ CancelEnd
         \/ CtxDone \/ Ret \/ End
 
 Spec == Init /\ [][Next]_vars
